@@ -463,6 +463,8 @@ package rtpconn
 //@ func handleClientMessage
 //@   props C11 C12 C15
 //@   requires nonnil: c != nil && cwf(c)
+//@   -- the client loop holds no global lock between messages
+//@   requires token-store-free: !held(token.tokens.mu)
 //@   requires nonmember: nonmember(c)
 //@   -- the message was decoded from the wire into fresh objects: its username does not live inside the group's chat history
 //@   requires fresh-message: c.group != nil ==> ref(m.Username) != ref(c.group.history)
